@@ -178,6 +178,10 @@ func propC02(c *Ctx, r *Report) {
 }
 
 var genFormatExceptions = map[string]string{
+	"glsl/internal/codegen.Writer.imageToGLSL:%sCubeArray#1":       "spells a built-in GLSL type (samplerCubeArray with its i / u prefix), not an invented identifier",
+	"glsl/internal/codegen.Writer.imageToGLSL:%sCube#1":            "spells a built-in GLSL type (samplerCube with its i / u prefix), not an invented identifier",
+	"msl/internal/codegen.Writer.packedVectorTypeName:%spacked_%s3#1": "spells a metal_stdlib type (metal::packed_float3), not an invented identifier",
+	"glsl/internal/codegen.Writer.fallbackCombinedName:%s_%s#1":    "a use-site fallback for a texture-sampler pair the pre-scan did not declare: it names nothing that is declared, so it cannot define a second entity (the pre-scan's own names are decided under reflect / names.rawuse)",
 	"hlsl/internal/codegen.Writer.samplerBindingArrayInfoFromExpression:nagaGroup%dSamplerIndexArray#1": "re-spelling, at a use, of the name that writeSamplerIndexBuffer obtains from the namer; the naga prefix is reserved (names.helpers)",
 	"msl/internal/codegen.wrappedMathSuffix:vec%d_%s#1":                                                  "a suffix appended to a reserved naga_ helper name, never a name of its own",
 }
